@@ -230,6 +230,10 @@ func check(sc *core.Scenario, budget int) (v *core.Violation, note string, a, b 
 // RunItem checks one (program, history) pair.
 func (d *D) RunItem(idx int, ctx *core.Ctx) {
 	c := cfg(ctx.Tier)
+	if idx%5 == 2 {
+		d.runL2Item(idx, ctx)
+		return
+	}
 	sc := d.Base(idx, ctx)
 	if sc == nil {
 		return
@@ -280,6 +284,10 @@ func (d *D) RunItem(idx int, ctx *core.Ctx) {
 
 // Check re-executes one scenario.
 func (d *D) Check(sc *core.Scenario) *core.Violation {
+	if sc.Level == "L2" {
+		v, _, _ := checkL2(sc)
+		return v
+	}
 	v, _, _, _ := check(sc, cfg(sc.Tier).budget)
 	return v
 }
@@ -297,12 +305,15 @@ func (d *D) Describe(ev *core.Evidence, st *core.Stats) {
 		}
 	}
 	ev.Coverage["discarded"] = disc
+	ev.Coverage["l2"] = map[string]int64{"pairs_compared": c["l2_pairs_compared"], "event_arrived_while_busy": c["probe_l2_event_arrived_while_busy"],
+		"event_dropped_before_registration": c["probe_l2_event_dropped_before_registration"], "animation_frames": c["probe_l2_animation_frames"]}
 	ev.Coverage["probes"] = map[string]int64{"underscore_param_handler_ran": c["probe_underscore_param_handler_ran"], "parameterless_handler_present": c["probe_parameterless_handler_present"],
 		"handler_shadows_global": c["probe_handler_shadows_global"], "run_ended_inside_a_handler": c["probe_run_ended_inside_a_handler"]}
 	ev.Coverage["faults_injected"] = map[string]int64{}
 	ev.Coverage["simulated_time_s"] = float64(c["simulated_ns"]) / 1e9
 	ev.Coverage["steps"] = c["steps"]
-	ev.Coverage["components"] = map[string][]string{"real": {"lexer", "parser", "evaluator (HandleEvent, scopes, valueFromAny)", "builtins"}, "stub": {"platform (SimPlatform)", "event loop (driver mirrors pkg/wasm handleEvents: one event at a time, registered handlers only)"}}
+	ev.Coverage["components"] = map[string][]string{"real": {"lexer", "parser", "evaluator (HandleEvent, scopes, valueFromAny)", "builtins"}, "real at L2 only": {"pkg/wasm: event queue, on* exports, handleEvents, alloc/getString string marshalling, jsPlatform, sleepingYielder"},
+		"stub": {"L1: platform (SimPlatform) and event loop (driver mirrors pkg/wasm handleEvents: one event at a time, registered handlers only)", "L2: the browser / JS side (simjs model of frontend/play/index.js: listeners, requestAnimationFrame, read box, Stop button)"}}
 	ev.Assumptions = []string{
 		"fault-free configuration: no stop is injected here (C14 covers interruption); events are delivered one at a time to registered handlers only, as the page does",
 		"programs using `test` are excluded: summaries and failures are reported at different moments in the two forms",
